@@ -96,6 +96,16 @@ PROPS = {
         "assumptions": ASSUME_COMMON + ["leaked helper goroutines after the command returned are not alarmed on (the process exits)",
                                         "the rate limiter is not context-aware: every limiter reservation taken before/after Ctrl-C adds one interval to the bound (observed, documented in DESIGN.md, not a violation of 'bounded')"],
     },
+    "C13": {
+        "level": "exploration",
+        "rule": "case = one full command execution (tcp / tcp syn / tcp fin / udp / icmp / socks) over a generated target file of 1..15 lines in pairs, addresses-x-ports (1..3 ports, also from stdin) or address-list mode, with 1..3 bad lines drawn from a catalogue of 19 kinds (missing / empty / unparsable address, range as address, missing port, port 0 / 65536 / negative / huge, wrong JSON types, truncated JSON, garbage, blank line, array, empty object after a valid line, line > 64 KiB) at drawn positions, stacked stages: exclusion filter on/off x MAC stage in {VPN, --gwmac, gateway in cache, cache only (no gateway MAC: uncached destinations have no MAC)}; oracle = the observed (probe multiset, error-record classes) equals one of the reference model's outcomes {stop at the j-th bad line, continue to the end}: every bad line before the stop has exactly one error record stating its cause class (address / port / JSON / too long / no MAC for <that address>), valid lines are probed exactly once per pass, nothing else is probed; distinct = (command, mode, stages, line kinds, trace hash)",
+        "suites": [{"name": "C13-badentries", "quick": 2400, "thorough": 60000, "budget_quick": 100, "budget_thorough": 1500}],
+        "expect_probes": ["no-mac-entry", "stopped-at-bad-line", "continued-after-bad-line"],
+        "components": COMPONENTS_CMD,
+        "assumptions": ASSUME_COMMON + ["error records are observed at the zap core (the production sampler would drop repeated messages)",
+                                        "the cause stated by an error record is classified by keywords of its text (json / port / too long / invalid ip|address / MAC + address)",
+                                        "in addresses-x-ports mode the list is traversed once per port: one error per bad line per traversal, or one in total, are both accepted"],
+    },
     "C15": {
         "level": "exploration",
         "rule": "case = one packet or socks scan with --rate N/W (N 1..5000; windows 250us..1m30s, with and without explicit count), workers 1..1000, up to 300 probes, NIC stalls / probe latencies in a share of runs; observed on the virtual clock: entry time of every frame write / dial; oracle = for every window of k consecutive departures span >= (k-1-10)*floor(W/N) - (k-1)ns, in stall-free packet runs also span <= (k-1)*floor(W/N)+k ns (charged once), probe count exact, every reply-shaped frame printed at its arrival instant (receive not slowed); distinct = (command, rate, #probes, trace hash)",
@@ -136,6 +146,8 @@ for _p in PENDING:
         NOT_APPLICABLE.append({"property_id": _p, "reason": "check under construction in this session - not claimed yet (planned in DESIGN.md section 4)"})
 
 MANIFEST_TEXT = {
+    "C13": {"text": "Full commands read generated target files with bad lines at drawn positions under every stack of optional stages (exclusion filter, ARP-cache resolver with/without gateway MAC, VPN, application scan). The frames / dials and the error records (at the zap core) are compared with a line-by-line reference model that allows stopping at a bad line or continuing as if it were absent.",
+            "note": "Sampled files (1..15 lines, 19 kinds of bad line); error causes classified by keywords."},
     "C07": {"text": "The real packet pipeline stages run under the seeded scheduler between simulated request generator, filler, writer and reader; frames carry ids so that the multiset on the wire is compared byte for byte with independently built frames, every injected failure must appear exactly once on the error stream, and completion may only be observed when no write is in flight. Buffer-pool reuse is a seeded decision, so premature recycling shows as an altered or wrong frame. The same oracles run on full commands with a stalling / failing NIC.",
             "note": "Schedules, sizes and fault positions are sampled. Races are detected by consequence only."},
     "C08": {"text": "The real generic engine, result channel, startScanEngine and logger run with a recording scanner whose latency and outcome per request are seeded; worker counts up to 1000 and streams beyond the 1000/100-slot buffers. Each request must be probed exactly once, each outcome reported exactly once, and the scan may only return after the last probe plus the exit delay. `sx socks` runs against populations of simulated endpoints.",
